@@ -490,11 +490,31 @@ class ExecMixin:
         frame, bb, t = site
         name = (func.get("resolved") or func)["name"]
         self.unmodelled[name] += 1
+        st.ghost["unmod"] = name       # what this path computes from here on rests on an unknown result
         if self.stubs.may_panic_name(name):
             self.oblig("panic-reach", frame, bb, self.callee_label(func), False, st,
                        "unmodelled callee of a panicking class: " + name, t.get("ln"))
         else:
             self.assumed_total[name] += 1
+        # closures handed to a callee without a model: the callee may call them (any number of times), so what their bodies
+        # require has to hold - from the state as it is now and from one in which whatever they can modify has changed
+        for a in args:
+            cv = self.load(st, a.cell, a.path) if isinstance(a, VRef) else a
+            fnc = self.fx.fns.get(cv.key) if isinstance(cv, VClosure) else None
+            if fnc is None or frame.depth > 40:
+                continue
+            for changed in (False, True):
+                s2 = st.fork()
+                if changed:
+                    for up in cv.upvars:
+                        if isinstance(up, VRef) and up.mut:
+                            self.store(s2, up.cell, up.path, VUnknown(None, self.fresh("havoc")))
+                try:
+                    locs = fnc["body"]["locals"]
+                    cargs = [self.symval(s2, locs[2 + i], self.fresh("cloarg")) for i in range(fnc["body"]["arg_count"] - 1)]
+                    self.call_closure(s2, site, cv if not isinstance(a, VRef) else a, cargs)
+                except Abort as e:
+                    self.aborted[str(e)[:160]] += 1
         # havoc everything reachable through &mut arguments
         for a in args:
             if isinstance(a, VRef) and a.mut:
@@ -620,14 +640,37 @@ class ExecMixin:
             out["exit"].extend(r["exit"])
         return out
 
-    def analyse_loop(self, frame, st0, head, loopset, peeled=False, no_unroll=False):
+    def has_flip(self, st0, H, b):
+        for cell, v0 in H.cells.items():
+            if cell not in st0.cells:
+                continue
+            vb = b.cells.get(cell)
+            if vb is None or vb is v0:
+                continue
+            for _kp, kind in self.diff(b, v0, vb, ()):
+                if kind == "flip":
+                    return True
+        return False
+
+    def phase_change(self, frame, st0, b):
+        """a local of enum type that holds one variant on loop entry and another one on this back edge (an accumulator
+        turning from Ok(..) into Err(..), a `first_error` going from None to Some): the state starts a new phase of
+        the loop"""
+        for cell in frame.cells:
+            v0 = st0.cells.get(cell)
+            vb = b.cells.get(cell)
+            if isinstance(v0, VAdt) and isinstance(vb, VAdt) and v0.vidx.is_const() and vb.vidx.is_const() and v0.vidx.c != vb.vidx.c:
+                return True
+        return False
+
+    def analyse_loop(self, frame, st0, head, loopset, peeled=False, no_unroll=False, phase=0):
         """Houdini-style inductive invariant inference over loop-carried leaves, then a
         final recorded pass.  Returns {'ret': [...], 'exit': [(st, bb)]}"""
         self.stats["loops"] += 1
         lid = (frame.key, head)
         if lid in self.peel_wanted and not peeled and not self.opts.get("no_peel"):
             return self.peel(frame, st0, head, loopset)
-        self._loop_gen[lid] = st0.ghost.get("loops_done", ()).count(lid)
+        self._loop_gen[lid] = st0.ghost.get("loops_done", ()).count(lid) + 50 * phase
         ri = self.rot_info(frame.fn, frame.body)
         rot = st0.ghost.get("rot")
         if ri and head in ri["heads"] and rot is not None and rot[0] == frame.fid and not peeled and not no_unroll \
@@ -668,7 +711,13 @@ class ExecMixin:
                     res = self.explore(frame, items, head, loopset)
                 finally:
                     self.loop_stack.pop()
-                backs = res["back"]
+                # back edges on which an enum-typed local has changed its variant are not merged into this phase's
+                # invariant: the loop is analysed again from each of them (below), at most two phases deep
+                backs = [b for b in res["back"] if phase >= 2 or not self.phase_change(frame, st0, b)]
+                # ... and a back edge on which some enum value has changed its variant (an iterator's pending item gone
+                # to None, a parked error) may be the last one: if one more evaluation of the head certainly leaves the
+                # loop from it, it is an exit
+                backs = [b for b in backs if not (self.has_flip(st0, H, b) and self.terminal_exit(frame, b, head, loopset) is not None)]
                 changed = False
                 for b in backs:
                     for cell, v0 in H.cells.items():
@@ -695,6 +744,8 @@ class ExecMixin:
                                 if cur is None or len(pre) < len(cur):
                                     prefixes[(cell, kp)] = pre
                                     changed = True
+                            if kind == "flip":
+                                kind = "any"
                             if (cell, kp) not in havoc:
                                 # subsumed by an already havoced prefix?
                                 if any((cell, kp[:i]) in havoc for i in range(len(kp))):
@@ -738,15 +789,30 @@ class ExecMixin:
             r = self.try_unroll(frame, st0, head, loopset, max_iter=24, max_width=3)
             if r is not None:
                 return r
-            return self.analyse_loop(frame, st0, head, loopset, peeled, no_unroll=True)
+            return self.analyse_loop(frame, st0, head, loopset, peeled, no_unroll=True, phase=phase)
         if lid in self.peel_wanted and not peeled and not self.opts.get("no_peel"):
             return self.peel(frame, st0, head, loopset)
         # final pass (obligations recorded)
         H, hv = self.make_head(st0, havoc, cands, lid, entry_vals, prefixes)
+        if any(b.ghost.get("unmod") for b in backs):
+            H.ghost["unmod"] = next(b.ghost["unmod"] for b in backs if b.ghost.get("unmod"))
         succs = self.exec_block(frame, H.fork(), head)
         items = [(s, x) for k, s, x in succs if k == "goto"]
         rets = [(s, x) for k, s, x in succs if k == "ret"]
         res = self.explore(frame, items, head, loopset)
+        later = [b for b in res["back"] if phase < 2 and self.phase_change(frame, st0, b)]
+        if later:
+            res = dict(res, back=[b for b in res["back"] if not any(b is x for x in later)])
+        term_rets, term_exits, keep = [], [], []
+        for b in res["back"]:
+            te = self.terminal_exit(frame, b, head, loopset) if self.has_flip(st0, H, b) else None
+            if te is None:
+                keep.append(b)
+            else:
+                term_rets += te["ret"]
+                term_exits += te["exit"]
+        if len(keep) != len(res["back"]):
+            res = dict(res, back=keep, exit=list(res["exit"]) + term_exits, ret=list(res["ret"]) + term_rets)
         # ranking obligation
         self.rank_check(frame, head, H, res["back"], havoc, lid, cands)
         if not self.mute:
@@ -763,7 +829,13 @@ class ExecMixin:
         hook = self.hooks.get("loop")
         if hook:
             hook(frame, head, H, res, havoc, lid)
-        return {"ret": rets + res["ret"], "exit": res["exit"]}
+        out = {"ret": rets + res["ret"], "exit": list(res["exit"])}
+        for b in later:
+            self.stats["loop_phases"] = self.stats.get("loop_phases", 0) + 1
+            r = self.analyse_loop(frame, b, head, loopset, peeled=peeled, no_unroll=no_unroll, phase=phase + 1)
+            out["ret"].extend(r["ret"])
+            out["exit"].extend(r["exit"])
+        return out
 
     def terminal_exit(self, frame, b, head, loopset):
         """a state that has come back to the head and, evaluated there once more, certainly leaves the loop (the flag it
@@ -890,6 +962,8 @@ class ExecMixin:
         finally:
             self.mute -= 1
         H, hv = self.make_head(P0, havoc, cands, lid, entry_vals, prefixes)
+        if any(b.ghost.get("unmod") for b in pres):
+            H.ghost["unmod"] = next(b.ghost["unmod"] for b in pres if b.ghost.get("unmod"))
         rets, exits, backs = iteration(H, site)
         ps = pre_states(backs)
         if ps is None:
@@ -993,6 +1067,8 @@ class ExecMixin:
                         if cur is None or len(pre) < len(cur):
                             prefixes[(cell, kp)] = pre
                             changed = True
+                    if kind == "flip":
+                        kind = "any"
                     if (cell, kp) not in havoc:
                         if any((cell, kp[:i]) in havoc for i in range(len(kp))):
                             continue
@@ -1275,11 +1351,11 @@ class ExecMixin:
             return
         if isinstance(v0, VBool):
             if v0.f != vb.f:
-                yield (kp, "any")
+                yield (kp, "flip" if isinstance(vb, VBool) and v0.f[0] == "const" and vb.f[0] == "const" else "any")
             return
         if isinstance(v0, VAdt):
             if v0.vidx != vb.vidx and not self.same_lin(st, v0.vidx, vb.vidx):
-                yield (kp, "any")
+                yield (kp, "flip" if isinstance(vb, VAdt) and v0.vidx.is_const() and vb.vidx.is_const() else "any")
                 return
             if set(v0.variants) != set(vb.variants):
                 # lazily materialised variants on one side only: compare the common ones
@@ -1343,16 +1419,16 @@ class ExecMixin:
                     yield (kp + (("ipos",),), "int")
                 if isinstance(v0.items, Lin) and isinstance(vb.items, Lin) and not self.same_lin(st, v0.items, vb.items):
                     yield (kp + (("ilen",),), "int")
-            elif v0.items != vb.items or v0.pos != vb.pos:
+            elif v0.kind != "successors" and (v0.items != vb.items or v0.pos != vb.pos):
                 yield (kp, "any")
                 return
             # nested iterators (adaptors) and the slice an iterator walks
             kids0 = dict(children(v0))
             kidsb = dict(children(vb))
             for key in kids0:
-                if key[0] in ("isrc", "isl") and key in kidsb:
+                if key[0] in ("isrc", "isl", "ist") and key in kidsb:
                     yield from self.diff(st, kids0[key], kidsb[key], kp + (key,))
-            if not any(k[0] in ("isrc", "isl") for k in kids0) and not isinstance(v0.pos, Lin) and v0.src != vb.src:
+            if not any(k[0] in ("isrc", "isl", "ist") for k in kids0) and not isinstance(v0.pos, Lin) and v0.src != vb.src:
                 yield (kp, "any")
             return
         if isinstance(v0, (VUnknown,)):
@@ -1422,7 +1498,7 @@ class ExecMixin:
                     cands.append(("stride", leaf, abs(d.c)))
         # neighbourhood: int leaves in the same cells as havoced leaves and in the frame's locals
         neigh = []
-        cells = set(c for c, _ in hint)
+        cells = set(c for c, _ in hint) | set(c for (c, _kp) in havoc)      # (a buffer whose content changes: its length is a neighbour)
         if self.opts.get("wide_candidates"):
             cells |= set(frame.cells)
         for cell in cells:
@@ -1448,6 +1524,8 @@ class ExecMixin:
                     continue
                 if len(neigh) > 60 and c2 != cell and c2 not in frame.cells:
                     continue
+                if entails(st0.cons, c_lt(old.lin, v2.lin), self.ranges):
+                    cands.append(("lt", (cell, kp), (c2, kp2)))
                 if entails(st0.cons, c_le(old.lin, v2.lin), self.ranges):
                     cands.append(("le", (cell, kp), (c2, kp2)))
                 if entails(st0.cons, c_le(v2.lin, old.lin), self.ranges):
@@ -1507,6 +1585,8 @@ class ExecMixin:
             if ea is None or eb is None:
                 return None
             return c_eq(a + b.scale(c[3]), ea + eb.scale(c[3]))
+        if kind == "lt":
+            return c_lt(a, b)
         return c_le(a, b) if kind == "le" else c_le(b, a)
 
     def cand_str(self, c):
@@ -1520,6 +1600,8 @@ class ExecMixin:
             return "%s = entry (mod %d)" % (self.leaf_name(*c[1]), c[2])
         if c[0] in ("ge0", "le0"):
             return "%s %s entry" % (self.leaf_name(*c[1]), ">=" if c[0] == "ge0" else "<=")
+        if c[0] == "lt":
+            return "%s < %s" % (self.leaf_name(*c[1]), self.leaf_name(*c[2]))
         return "%s %s %s" % (self.leaf_name(*c[1]), "<=" if c[0] == "le" else ">=", self.leaf_name(*c[2]))
 
     def rank_check(self, frame, head, H, backs, havoc, lid, cands):
@@ -1562,7 +1644,7 @@ class ExecMixin:
                     break
             # increasing towards another leaf that is an invariant upper bound
             for c in cands:
-                if c[0] == "le" and c[1] == (cell, kp):
+                if c[0] in ("le", "lt") and c[1] == (cell, kp):
                     ok = True
                     for b in backs:
                         xb = self.leaf_lin(b, cell, kp)
